@@ -91,14 +91,25 @@ def is_initial_segment(minis):
 
 
 # ------------------------------------------------------------------ dataset description
-def mkinfo(sizes, cs, m, s, p, ie="raw", de="raw", key=KEY, dtype="uint8"):
+def mkinfo(sizes, cs, m, s, p, ie="raw", de="raw", key=KEY, dtype="uint8", omit=()):
+    """omit: optional members of the sharding specification to leave out; the
+    format document gives both encodings the default "raw", so only members
+    whose value is "raw" are ever omitted."""
+    sharding = {"@type": "neuroglancer_uint64_sharded_v1",
+                "minishard_bits": m, "shard_bits": s, "preshift_bits": p,
+                "hash": "identity", "minishard_index_encoding": ie,
+                "data_encoding": de}
+    for member in omit:
+        if sharding.get(member) == "raw":
+            del sharding[member]
     return {"type": "image", "data_type": dtype, "num_channels": 1,
             "scales": [{"key": key, "size": list(sizes), "chunk_sizes": [[cs] * 3],
                         "resolution": [1, 1, 1], "voxel_offset": [0, 0, 0], "encoding": "raw",
-                        "sharding": {"@type": "neuroglancer_uint64_sharded_v1",
-                                     "minishard_bits": m, "shard_bits": s, "preshift_bits": p,
-                                     "hash": "identity", "minishard_index_encoding": ie,
-                                     "data_encoding": de}}]}
+                        "sharding": sharding}]}
+
+
+OMIT_CHOICES = [(), ("data_encoding",), ("minishard_index_encoding",),
+                ("data_encoding", "minishard_index_encoding")]
 
 
 SPECIAL_GRIDS = [(3, 4, 2), (1, 1, 1), (1, 1, 5), (1, 1, 6), (1, 6, 1), (5, 1, 1), (2, 3, 5),
@@ -174,7 +185,9 @@ def gen_dataset(rng, idx):
         payloads[c] = rng.randbytes(ln) if rng.random() < 0.9 else b"\x07" * ln
     return {"grid": list(g), "cs": cs, "sizes": sizes, "m": m, "s": s, "p": p, "ie": ie, "de": de,
             "subset": kind, "sel": [list(c) for c in sel],
-            "payloads": [payloads[c] for c in sel]}
+            "payloads": [payloads[c] for c in sel],
+            # optional members left out of the info (stratified: every fourth dataset each way)
+            "omit": list(OMIT_CHOICES[idx % 4])}
 
 
 def order_ops(ds, rng, order):
@@ -272,7 +285,8 @@ def _impl_write(R, ds, ops, strategy, name, info=None):
     import numpy as np
     from neuroglancer_scripts import sharded_file_accessor as sfa
     d = os.path.join(R.tmp, name)
-    info = info or mkinfo(ds["sizes"], ds["cs"], ds["m"], ds["s"], ds["p"], ds["ie"], ds["de"])
+    info = info or mkinfo(ds["sizes"], ds["cs"], ds["m"], ds["s"], ds["p"], ds["ie"], ds["de"],
+                          omit=ds.get("omit", ()))
     outs = []
     # histories beyond "store everything, close once" (decided from the PRNG so that replays agree):
     #  reuse: the caller hands every payload in ONE mutable buffer that it overwrites after each store;
@@ -478,7 +492,7 @@ def _impl_session(R, ds, sops, strategy, name):
     import numpy as np
     from neuroglancer_scripts import sharded_file_accessor as sfa
     d = os.path.join(R.tmp, name)
-    info = mkinfo(ds["sizes"], ds["cs"], ds["m"], ds["s"], ds["p"], ds["ie"], ds["de"])
+    info = mkinfo(ds["sizes"], ds["cs"], ds["m"], ds["s"], ds["p"], ds["ie"], ds["de"], omit=ds.get("omit", ()))
     info["scales"].append(dict(json.loads(json.dumps(info["scales"][0])), key=SCALE_KEYS[1]))
     outs = []
     with quiet(R.tmp), np.errstate(all="ignore"):
@@ -524,8 +538,8 @@ def parse_session_reply(rep):
 # ------------------------------------------------------------------ sessions in which the info file is replaced
 def info_for(ds, triples):
     """info with the two scales SCALE_KEYS, scale i sharded with triples[i] = (m, s, p)."""
-    info = mkinfo(ds["sizes"], ds["cs"], *triples[0], ds["ie"], ds["de"], key=SCALE_KEYS[0])
-    second = mkinfo(ds["sizes"], ds["cs"], *triples[1], ds["ie"], ds["de"], key=SCALE_KEYS[1])
+    info = mkinfo(ds["sizes"], ds["cs"], *triples[0], ds["ie"], ds["de"], key=SCALE_KEYS[0], omit=ds.get("omit", ()))
+    second = mkinfo(ds["sizes"], ds["cs"], *triples[1], ds["ie"], ds["de"], key=SCALE_KEYS[1], omit=ds.get("omit", ()))
     info["scales"].append(second["scales"][0])
     return info
 
@@ -728,3 +742,60 @@ def judge_info_sessions(R, todo, prop, prefix):
                 R.violation("shard file violates the layout predicates under the parameters of the info file on disk",
                             dict(case, scale=k), {"file": name.decode(), "parse": str(parse_ok), "slot": str(slot_ok),
                                                   "disjoint": str(disj_ok)})
+
+
+# ------------------------------------------------------------------ grids whose identifiers need 54..64 bits
+HUGE_BITS = [(18, 18, 18), (21, 21, 21), (22, 21, 21), (30, 20, 4), (1, 33, 30), (20, 17, 18)]
+
+
+def ref_uncmc(grid, cid):
+    nb = [(g - 1).bit_length() for g in grid]
+    p = [0, 0, 0]
+    j = 0
+    for i in range(max(nb)):
+        for d in range(3):
+            if i < nb[d]:
+                p[d] |= ((cid >> j) & 1) << i
+                j += 1
+    return p
+
+
+def gen_huge_dataset(rng, i):
+    """A handful of chunks in a grid of 2^54 .. 2^64 positions (identifiers that
+    are not exact doubles), with shard/minishard bits covering the whole
+    identifier so that no minishard needs more than 2^p entries."""
+    bits = HUGE_BITS[i % len(HUGE_BITS)]
+    exact = (i // len(HUGE_BITS)) % 2 == 0
+    g = [(1 << b) if exact or b < 3 else (1 << b) - rng.randrange(1, 4) for b in bits]
+    total = sum((x - 1).bit_length() for x in g)
+    p = i % 3
+    m = (i // 3) % 3
+    s = total - p - m + rng.choice([0, 0, 1])
+    want_ids = [0, 1, (1 << 53) + 1, (1 << 53) - 1, (1 << total) - 1, (1 << (total - 1)) + 1,
+                rng.getrandbits(total) | 1, rng.getrandbits(total)]
+    coords = [[x - 1 for x in g]]
+    for cid in want_ids:
+        c = ref_uncmc(g, cid)
+        if all(ci < gi for ci, gi in zip(c, g)) and c not in coords:
+            coords.append(c)
+    for _ in range(2):
+        c = [rng.randrange(x) for x in g]
+        if c not in coords:
+            coords.append(c)
+    coords.sort(key=lambda c: ref_cmc(g, c))
+    return {"grid": g, "cs": 1, "sizes": list(g), "m": m, "s": s, "p": p,
+            "ie": ["raw", "gzip"][i % 2], "de": ["raw", "raw", "gzip"][i % 3],
+            "subset": "huge-grid", "huge": True, "sel": coords,
+            "payloads": [rng.randbytes(rng.randrange(0, 9)) for _ in coords], "omit": []}
+
+
+def gen_bigpayload_dataset(rng, i):
+    """One minishard holding more than 64 KiB of chunk data whose length is not
+    a multiple of 65536 (block-wise copying of the write buffers)."""
+    g = [(1, 1, 3), (2, 1, 2), (1, 3, 1)][i % 3]
+    coords = sorted(itertools.product(range(g[0]), range(g[1]), range(g[2])), key=lambda c: ref_cmc(g, c))
+    lens = [[40000, 30000, 7], [65536, 1, 40000, 3], [20000, 50000, 61073]][i % 3]
+    return {"grid": list(g), "cs": 1, "sizes": list(g), "m": i % 2, "s": 0, "p": [0, 2, 1][i % 3],
+            "ie": ["raw", "gzip"][i % 2], "de": "raw", "subset": "big-payloads",
+            "sel": [list(c) for c in coords[:len(lens)]],
+            "payloads": [rng.randbytes(n) for n in lens], "omit": []}
